@@ -31,6 +31,7 @@ def checkLine (line : String) : String × String × Verdict :=
         | "qi" => checkQI "qi" op args r
         | "di" => checkQI "di" op args r
         | "vi" => checkVI op args r
+        | "vil" => checkVIL op args r
         | "fsi" => checkFSI op args r
         | "fset" => checkFSet op args r
         | "hset" => checkHSet args r
